@@ -146,7 +146,7 @@ fn(H2 + "._handle_events", params={"events": "obj pyvc:H2Events"}, task="reader"
    loops={0: {"body_ensures": [
        # C01/C09: every DATA frame is acknowledged for flow control with its flow-controlled
        # length, whether or not its stream still exists (otherwise the connection window drains)
-       ("C09.ack", "implies(isinstance(event, h2.events.DataReceived), trace_any('h2', 'x', x[0] == 'ack' and x[1] == event.stream_id and x[2] == event.flow_controlled_length))", "C09,C04,C01"),
+       ("C09.ack", "implies(isinstance(event, h2.events.DataReceived), trace_any('h2', 'x', x[0] == 'ack' and x[1] == event.stream_id and x[2] == event.flow_controlled_length))", "C09,C04,C01,C05"),
        # C01.h2.data / C01.h2.end: the body bytes of a DATA frame and the end of the request
        # (h2 reports it as a StreamEnded event of its own, whichever frame carried END_STREAM --
        # DATA, HEADERS or trailers) reach the stream object if it still exists
